@@ -122,3 +122,17 @@ fn b_v9_total_size() {
     while j < n { want += l[j] as u32; j += 1; }
     assert!(t.get_total_size() as u32 == if want > 65535 { 65535 } else { want });
 }
+
+/// K.v9.unknown_field.off -- feature parse_unknown_fields OFF: a V9 field whose type the library does not know is never
+/// decoded, whatever its declared length and whatever the bytes (so the record holding it is not reported, V.v9.records)
+#[cfg(not(feature = "parse_unknown_fields"))]
+#[kani::proof]
+#[kani::unwind(6)]
+fn k_v9_unknown_field_off() {
+    let buf: [u8; 6] = kani::any();
+    let n: usize = kani::any();
+    kani::assume(n <= 6);
+    let f = TemplateField { field_type_number: 400, field_type: V9Field::from(400u16), field_length: kani::any() };
+    assert!(f.field_type == V9Field::Unknown);
+    assert!(f.parse_as_field_value(&buf[..n]).is_err(), "a field of unknown type was reported as decoded data");
+}
